@@ -35,7 +35,7 @@ func init() {
 		Model:      []string{"destination buffer (simio.GuardedBuf: prefill pattern, canaries on both sides)", "well-behaved user Message / gogo-style custom message implementations"},
 		Assumptions: []string{
 			"what MarshalTo leaves in dest[Size:L] on success and in dest[:L] on failure is not constrained by the statement and not checked",
-			"user-implemented Marshal/MarshalTo methods are well behaved (report io.ErrShortBuffer, never write beyond the slice they are given)",
+			"user-implemented Marshal/MarshalTo methods either report io.ErrShortBuffer themselves or, like protoc-gen-gogo output, slice the destination to Size() and rely on the library having checked the space",
 			"types and values are sampled from the seeded proto generator and the static zoo",
 		},
 	})
@@ -69,7 +69,7 @@ func fieldKindsOf(rt reflect.Type) map[string]bool {
 			return
 		}
 		seen[t] = true
-		if reflect.PointerTo(t).Implements(reflect.TypeOf((*proto.Message)(nil)).Elem()) || strings.Contains(t.Name(), "PCustom") {
+		if reflect.PointerTo(t).Implements(reflect.TypeOf((*proto.Message)(nil)).Elem()) || (strings.Contains(t.Name(), "PCustom") || strings.Contains(t.Name(), "PGogo")) {
 			out["cut-inside-custom-message"] = true
 		}
 		switch t.Kind() {
